@@ -107,7 +107,7 @@ CHECKS = {
                 text='Bounded symbolic model checking of the adapter layer only: for a 4-sheet in-memory workbook (a sheet name needing quotes, one whose name extends an ignorable one; 21 stored cells: constants, '
                      'formulas with cached results, an empty stored cell; 8 defined names: cell, range, on the quoted sheet, over cells that are not stored, also written out directly, on the ignorable sheet) and ALL '
                      'payload values (ints; int/text/bool), every subset of ignored sheets, three obligations each: exactly the non-ignored cells with typed constants, formula texts and cached results (readable '
-                     'before evaluation) and the names bound; every formula and name evaluates to its reference value and a value set through a name reaches its cell; evaluates like a model built directly from the same contents.',
+                     'before evaluation) and the names bound; every formula and name evaluates to its reference value and a value set through a name reaches its cell; evaluates like a model built directly from the same contents. patch.WorksheetReader.bind_cells on parsed cell records with symbolic payloads: one cell per record with value, type and cached value, carried through read_cells.',
                 note=XH_NOTE + ' NOT applicable (and not claimed): zip container, XML parsing, shared strings, shared-formula expansion, openpyxl.load_workbook - file I/O and third-party decoding through which no symbolic input survives.'),
 }
 NA = {
